@@ -6,6 +6,10 @@
           extracted LTS (every logged result must be the model's result).
   stress  several publishers with unique payloads against polling consumers, with and without
           poll time-outs and subscribe/unsubscribe churn; property oracle only.
+  subrace 2-3 subscribe calls of one client id and topic racing with each other and with a publisher,
+          thousands of rounds; oracle: exactly one of them reports true, every accepted publish is handed
+          over exactly once (the atomic check-and-insert of subscribe: C19_subscription_cache_stable,
+          C19_refuted_subscribe_store).
   forced  racing orders forced at the verif yield points of broker.go (only when the tree under
           test has the hook: hooks/c19-push.patch), replayed through the LTS step by step.
 
@@ -17,6 +21,7 @@ import hv
 
 MS = 10**6
 KNOWN_KEY = "publish-after-timed-out-poll-is-lost"
+SUBRACE_KEY = "racing-subscribes-replace-cache-accepted-message-lost"
 
 
 # ------------------------------------------------------------------------------- generation
@@ -240,8 +245,12 @@ def gen_cases(ctx, hook):
                       "heartbeat_ms": 20000, "clients": ctx.rng.choice([1, 2]), "topics": ctx.rng.choice([1, 2]),
                       "publishers": ctx.rng.choice([2, 3]), "per_pub": ctx.rng.choice([20, 30]),
                       "churn": False, "seed": ctx.rng.randrange(1 << 30)})
+    for k in range(2 if quick else 6):
+        cid += 1
+        cases.append({"id": cid, "kind": "subrace", "timeout_ms": 1, "heartbeat_ms": 20000, "subscribers": 2 + k % 2,
+                      "duration_ms": 1500 if quick else 4000})
     if hook:
-        for sc in FORCED_SCENARIOS:
+        for sc in FORCED_SCENARIOS + (["subscribe-race"] if subscribe_point_present() else []):
             for rep in range(1 if quick else 3):
                 cid += 1
                 cases.append({"id": cid, "kind": "forced", "scenario": sc, "timeout_ms": 40, "heartbeat_ms": 10000})
@@ -627,7 +636,19 @@ FORCED_MODEL = {
     "heartbeat-after-repoll":
         ("S 1 7 P1 7 42 1 sL 1 pd 0 sL 1 pd 1 hbs H pd 1 P1 7 43 1 hz",
          {"poll1": 3, "poll2": 8, "pub2": 9}),
+    # two subscribes of one client and topic: the second has passed the existence check (2 steps) and is
+    # held before its insert; the first completes; a publish is accepted; the second inserts; poll
+    "subscribe-race":
+        ("sS 1 7 sS 1 7 w 1 2 wd 0 P1 7 42 1 wd 1 sL 1 pd 0 hz",
+         {"sub1": 3, "pub": 4, "sub2": 5, "poll1": 7}),
 }
+
+
+def subscribe_point_present():
+    try:
+        return '"subscribe.checked"' in open(os.path.join(hv.REPO, "rpc", "plugins", "push", "broker.go")).read()
+    except OSError:
+        return False
 
 
 def hook_present():
@@ -682,6 +703,17 @@ def forced_eval(case, obs, mout):
         if f.get("pub") == "1:T" and f.get("poll1") != "B7:42" and f.get("poll2") != "B7:42":
             finds.append(("publish-before-responder-registration-is-lost", "forced: a publish completed between the poll's empty "
                           "check and the registration of its responder and was not returned by the next poll: %s" % got))
+        return dis, finds
+    if sc == "subscribe-race":
+        want = {k: mp[k] for k in ("sub1", "pub", "sub2", "poll1")}
+        got = {k: f.get(k) for k in ("sub1", "pub", "sub2", "poll1")}
+        dis = None if got == want else "implementation %s, model %s" % (got, want)
+        if f.get("pub") == "1:T" and f.get("poll1") != "B7:42":
+            finds.append((SUBRACE_KEY, "forced: a second subscribe of the same client and topic, held between its existence "
+                          "check and its insert while the first subscribe completed and a publish was accepted, replaced the "
+                          "cache holding the accepted message: %s" % got))
+        if f.get("sub1") == "T" and f.get("sub2") == "T":
+            finds.append(("racing-subscribes-both-true", "forced: two racing subscribes of one client and topic both reported true"))
         return dis, finds
     if sc == "heartbeat-after-repoll":
         want = {"poll1": mp["poll1"], "poll2": mp["poll2"], "pub2": mp["pub2"]}
@@ -812,6 +844,28 @@ def run(ctx):
         for key, text in finds:
             add(key, text, c, {"stats": stats, "notes": o.get("notes"), "err": o.get("err")}, 1000 + c["per_pub"])
 
+    for c in cases:
+        if c["kind"] != "subrace":
+            continue
+        o = byid[c["id"]]
+        r = o.get("race") or {}
+        ctx.count_case("subrace|%d|%d" % (c["subscribers"], c["id"]), r.get("accepted", 0) > 0)
+        for k in ("rounds", "accepted", "delivered", "lost_count", "dup_count", "two_true_count"):
+            ctx.bump("subrace_" + k, None, r.get(k, 0))
+        if o.get("err"):
+            add("subrace-incomplete", "subscribe race run failed: " + o["err"], c, o, 2000)
+        if r.get("lost_count"):
+            add(SUBRACE_KEY, "%d subscribes of one client id and topic raced with each other and a publisher: in %d of %d rounds "
+                "the publish reported success and the client's polls never returned the message (first: %s)"
+                % (c["subscribers"], r["lost_count"], r["rounds"], json.dumps(r["lost"][0])), c, o, 2000)
+        if r.get("dup_count"):
+            add("duplicate-delivery", "subscribe race: in %d rounds the accepted message was handed over more than once (first: %s)"
+                % (r["dup_count"], json.dumps(r["dup"][0])), c, o, 2000)
+        if r.get("two_true_count"):
+            add("racing-subscribes-both-true", "%d subscribes of one client id and topic raced: in %d of %d rounds not exactly one "
+                "of them reported true (first: %s)" % (c["subscribers"], r["two_true_count"], r["rounds"],
+                                                       json.dumps(r["two_true"][0])), c, o, 2000)
+
     for c, mout in zip(forced, fouts):
         o = byid[c["id"]]
         ctx.count_case("forced|%s" % c["scenario"], True)
@@ -835,7 +889,8 @@ def run(ctx):
              "unsubscribe around traffic), hb (heartbeat expiry, clients that keep polling), mixed; publishes are unicast / "
              "multicast / broadcast over RPC or Broker.Push. non-trivial = some poll waited or returned a batch. stress: 2-4 "
              "publishers x 20-150 unique payloads against 1-3 polling consumers, with long and with 10-20 ms poll time-outs "
-             "and subscription churn. distinct by full case text")
+             "and subscription churn. subrace: thousands of rounds of 2-3 racing subscribes of one client id and topic plus a "
+             "publisher, then polls. distinct by full case text")
     ctx.note("exhaustive", False)
     ctx.note("traces_validated_against_impl", agree)
     ctx.note("inconclusive_timing_cases", inconclusive)
@@ -843,7 +898,9 @@ def run(ctx):
 
     for key, (size, c, o, text) in sorted(findings.items()):
         wit = {KNOWN_KEY: "C19_refuted_timeout_window (C19_exactly_once_partial: second kind of hazardous step)",
-               "publish-racing-with-poll-timeout-is-lost": "C19_exactly_once_partial (first kind of hazardous step)"}.get(key)
+               "publish-racing-with-poll-timeout-is-lost": "C19_exactly_once_partial (first kind of hazardous step)",
+               SUBRACE_KEY: "C19_refuted_subscribe_store (C19_subscription_cache_stable is what the atomic insert gives)",
+               "racing-subscribes-both-true": "C19_refuted_subscribe_store"}.get(key)
         ctx.report(key, text, {"case": short_case(c), "observation": o, "failing_input": True, "coq_witness": wit})
     if disagreements and not findings:
         c, o, d, hz = disagreements[0]
@@ -881,6 +938,10 @@ def replay(ctx, path):
     elif case["kind"] == "stress":
         why, stats = stress_oracle(case, o)
         print("stats:", stats)
+    elif case["kind"] == "subrace":
+        r = o.get("race") or {}
+        print("race:", json.dumps({k: v for k, v in r.items() if k.endswith("count") or k in ("rounds", "accepted", "sub_true")}))
+        why = [(k, r[k]) for k in ("lost_count", "dup_count", "two_true_count") if r.get(k)]
     else:
         m = hv.run_model("c19", [FORCED_MODEL[case["scenario"]][0]])[0]
         print("observed:", json.dumps(o.get("forced")))
